@@ -1,7 +1,8 @@
 (* Laws of the filename / tag model (C14), part 2: the wheel and sdist parsers against the encoders of the two packaging specs. *)
 From Coq Require Import List Arith NArith Bool Lia.
 Import ListNotations.
-Require Import S1 VParse VComplete VTop VDec Py VMeaning VCanon SpecModel CanonLaws Names NamesSpec NamesAscii NamesLaws WheelModel Wheel.
+Require Import S1 VParse VComplete VTop VDec Py VMeaning VCanon SpecModel CanonLaws Names NamesSpec NamesAscii NamesLaws LowerTable WordTable NamesX NamesLower NamesLowerLaws NamesLowerFull WheelModel Wheel.
+Arguments N.ltb : simpl never.
 Open Scope N_scope.
 Arguments N.eqb : simpl never.
 Arguments N.leb : simpl never.
@@ -25,8 +26,8 @@ Definition wheel_spec (w : wheel) : fres wheel_out :=
   | Some v =>
     let tags := tag_product (split_all 46 (w_py w)) (split_all 46 (w_abi w)) (split_all 46 (w_plat w)) in
     match w_build w with
-    | None => FOk (canon_name (w_name w), v, None, tags)
-    | Some b => match build_of b with None => FErr | Some bt => FOk (canon_name (w_name w), v, Some bt, tags) end
+    | None => FOk (canon_full (w_name w), v, None, tags)
+    | Some b => match build_of b with None => FErr | Some bt => FOk (canon_full (w_name w), v, Some bt, tags) end
     end
   end.
 
@@ -116,7 +117,7 @@ Definition ascii_unescaped (c : char) : Prop := c < 128 /\ is_alnum c = false /\
 Lemma name_char_ascii c : ascii_unescaped c -> name_char c = false.
 Proof.
   intros (L & A & U & D). unfold name_char, is_word. rewrite A. apply N.eqb_neq in U, D. rewrite U, D. cbn [orb].
-  unfold uni_word_table. cbn [existsb]. repeat (rewrite (proj2 (N.eqb_neq c _)) by lia). reflexivity.
+  rewrite (proj2 (N.leb_gt 128 c)) by lia. reflexivity.
 Qed.
 Lemma name_bad_unescaped n : (exists a b, n = a ++ 95 :: 95 :: b) \/ (exists c, In c n /\ ascii_unescaped c) -> name_bad n = true.
 Proof.
@@ -126,32 +127,15 @@ Proof.
 Qed.
 
 (* ---------------- the escaped project name ---------------- *)
-(* binary-distribution spec: runs of -_. become one '_' (re.sub(r"[-_.]+", "_", name)), optionally lower-cased *)
-Fixpoint esc (in_run : bool) (s : str) : str :=
-  match s with
-  | [] => []
-  | c :: t => if is_sep c then (if in_run then esc true t else 95 :: esc true t) else c :: esc false t
-  end.
+(* binary-distribution spec: runs of -_. become one '_' (re.sub(r"[-_.]+", "_", name): NamesLowerFull.esc), optionally lower-cased *)
 Definition escape (n : str) : str := esc false n.
 Definition name_ok (p : str) : Prop := name_bad p = false /\ nochar dash p = true.
 
-Lemma collapse_esc s : forall b, collapse b (esc b s) = collapse b s.
-Proof.
-  induction s as [|c t IH]; intros b; cbn [esc collapse]; [reflexivity|]. destruct (is_sep c) eqn:E; [destruct b|].
-  - apply IH.
-  - cbn [collapse]. change (is_sep 95) with true. cbn iota. now rewrite IH.
-  - cbn [collapse]. now rewrite E, IH.
-Qed.
-Lemma collapse_py_lower s : forall b, collapse b (py_lower s) = collapse b s.
-Proof.
-  induction s as [|c t IH]; intros b; [reflexivity|]. cbn [py_lower flat_map]. fold (py_lower t). destruct (is_sep c) eqn:E.
-  - rewrite (lower_sep c E). cbn [app collapse]. rewrite E. destruct b; now rewrite IH.
-  - rewrite collapse_lowered by assumption. cbn [collapse]. now rewrite E, IH.
-Qed.
-Lemma canon_escape n : canon_name (escape n) = canon_name n.
-Proof. rewrite !canon_collapse. apply collapse_esc. Qed.
-Lemma canon_escape_lower n : canon_name (py_lower (escape n)) = canon_name n.
-Proof. rewrite !canon_collapse, collapse_py_lower. apply collapse_esc. Qed.
+(* for EVERY name n (any code points, U+03A3 included) both escaped spellings decode to canonicalize_name(n) *)
+Lemma canon_escape n : canon_full (escape n) = canon_full n.
+Proof. apply canon_full_esc. Qed.
+Lemma canon_escape_lower n : canon_full (lower_full (escape n)) = canon_full n.
+Proof. apply canon_full_lower_esc. Qed.
 
 Definition esc_char (c : char) : bool := is_alnum c || (c =? 95).
 Lemma esc_chars s : forallb is_cls s = true -> forall b, forallb esc_char (esc b s) = true /\ has_uu (esc b s) = false
@@ -181,25 +165,27 @@ Proof.
 Qed.
 Lemma escape_ok n : forallb is_cls n = true -> name_ok (escape n).
 Proof. intros H. destruct (esc_chars n H false) as (A & B & _). now apply esc_chars_ok. Qed.
-Lemma lower_esc_char c : esc_char c = true -> exists d, py_lower_c c = [d] /\ esc_char d = true /\ ((d =? 95) = (c =? 95)).
+Lemma esc_char_cls c : esc_char c = true -> is_cls c = true.
+Proof. unfold esc_char, is_cls, is_sep. intros H. apply orb_prop in H as [H|H]; rewrite H; cbn [orb]; auto. now rewrite !orb_true_r. Qed.
+Lemma lower_esc_char c : esc_char c = true -> esc_char (lower_a c) = true /\ ((lower_a c =? 95) = (c =? 95)).
 Proof.
-  intros H. assert (C : is_cls c = true).
-  { unfold esc_char in H. unfold is_cls, is_sep. apply orb_prop in H as [H|H]; rewrite H; cbn [orb]; auto. now rewrite !orb_true_r. }
-  rewrite (lower_cls c C). exists (lower_a c). split; [reflexivity|]. unfold esc_char in *. unfold lower_a. destruct (is_upper c) eqn:U; [|auto].
+  intros H. unfold esc_char in *. unfold lower_a. destruct (is_upper c) eqn:U; [|auto].
   unfold is_upper in U. unfold is_alnum, is_digit, is_lower, is_upper. split; bcase.
 Qed.
-Lemma escape_lower_ok n : forallb is_cls n = true -> name_ok (py_lower (escape n)).
+Lemma escape_lower_ok n : forallb is_cls n = true -> name_ok (lower_full (escape n)).
 Proof.
   intros H. destruct (esc_chars n H false) as (A & B & _). unfold escape. revert A B. generalize (esc false n) as p.
-  intros p A B. apply esc_chars_ok.
+  intros p A B. rewrite lower_full_cls.
+  2:{ apply forallb_forall. intros x Hx. rewrite forallb_forall in A. now apply esc_char_cls, A. }
+  apply esc_chars_ok.
   - induction p as [|c p IH]; [reflexivity|]. cbn [forallb] in A. apply andb_prop in A as [Ac Ap].
-    destruct (lower_esc_char c Ac) as (d & E & Hd & _). cbn [py_lower flat_map]. fold (py_lower p). rewrite E. cbn [app forallb]. rewrite Hd. apply IH; auto.
+    destruct (lower_esc_char c Ac) as (Hd & _). cbn [map forallb]. rewrite Hd. apply IH; auto.
     destruct p as [|y p']; [reflexivity|]. cbn [has_uu] in B. now apply orb_false_elim in B as [_ B].
   - induction p as [|c p IH]; [reflexivity|]. cbn [forallb] in A. apply andb_prop in A as [Ac Ap].
-    destruct (lower_esc_char c Ac) as (d & E & _ & Hd). cbn [py_lower flat_map]. fold (py_lower p). rewrite E. cbn [app].
+    destruct (lower_esc_char c Ac) as (_ & Hd). cbn [map].
     destruct p as [|y p']; [reflexivity|]. cbn [has_uu] in B. apply orb_false_elim in B as [B1 B2]. specialize (IH Ap B2).
-    cbn [forallb] in Ap. apply andb_prop in Ap as [Ay _]. destruct (lower_esc_char y Ay) as (e & Ey & _ & He).
-    cbn [py_lower flat_map] in *. fold (py_lower p') in *. rewrite Ey in *. cbn [app] in *. rewrite has_uu_cons2, IH, Hd, He, B1. reflexivity.
+    cbn [forallb] in Ap. apply andb_prop in Ap as [Ay _]. destruct (lower_esc_char y Ay) as (_ & He).
+    cbn [map] in *. rewrite has_uu_cons2, IH, Hd, He, B1. reflexivity.
 Qed.
 
 (* ---------------- the build tag ---------------- *)
@@ -209,12 +195,7 @@ Definition build_ok (b : option (N * str)) : Prop :=
 Lemma digit_is_d c : is_digit c = true -> is_d c = true /\ to_ascii_digit c = c.
 Proof.
   intros H. unfold is_d, to_ascii_digit. rewrite H. split; [reflexivity|]. apply digit_range in H.
-  unfold uni_digit, uni_digit_table. cbn [find fst]. repeat (rewrite (proj2 (N.eqb_neq _ c)) by lia). reflexivity.
-Qed.
-Lemma take_line_all s : nochar 10 s = true -> take_line s = s.
-Proof.
-  induction s as [|c t IH]; [reflexivity|]. rewrite nochar_cons. intros H. apply andb_prop in H as [H1 H2]. apply negb_true_iff in H1.
-  cbn [take_line]. now rewrite H1, IH.
+  unfold uni_digit. rewrite (proj2 (N.ltb_lt c 128)) by lia. reflexivity.
 Qed.
 Lemma build_of_txt k suf : hd_is is_d suf = false -> build_of (build_txt (k, suf)) = Some (k, suf).
 Proof.
@@ -245,7 +226,7 @@ Proof.
 Qed.
 Theorem wheel_roundtrip p vtxt v b pys abis plats :
   name_ok p -> nochar dash vtxt = true -> Version vtxt = Some v -> build_ok b -> parts_ok pys -> parts_ok abis -> parts_ok plats ->
-  parse_wheel (wheel_name p vtxt b pys abis plats) = FOk (canon_name p, v, b, tag_product pys abis plats).
+  parse_wheel (wheel_name p vtxt b pys abis plats) = FOk (canon_full p, v, b, tag_product pys abis plats).
 Proof.
   intros [NB ND] VD VE B P1 P2 P3. destruct (parts_join _ P1) as [J1 S1], (parts_join _ P2) as [J2 S2], (parts_join _ P3) as [J3 S3].
   unfold wheel_name. rewrite parse_wheel_encode.
@@ -299,7 +280,7 @@ Proof.
   apply ends_with_last in E. discriminate.
 Qed.
 Theorem parse_sdist_encode p vtxt ext : nochar dash vtxt = true -> (ext = w_targz \/ ext = w_zip) ->
-  parse_sdist (p ++ dash :: vtxt ++ ext) = match Version vtxt with Some v => FOk (canon_name p, v) | None => FErr end.
+  parse_sdist (p ++ dash :: vtxt ++ ext) = match Version vtxt with Some v => FOk (canon_full p, v) | None => FErr end.
 Proof.
   intros H [->| ->]; unfold parse_sdist.
   - replace (p ++ dash :: vtxt ++ w_targz) with ((p ++ dash :: vtxt) ++ w_targz) by (now rewrite <- app_assoc).
